@@ -33,9 +33,17 @@ import FqModel.Gopacket
     5. the predicate is evaluated twice — in the reference world (every captured segment counts) and in the world of
        the fq model (payload-free segments rejected by `Accept`, `acceptSegment`, never reach the assembler; this
        world feeds the model replay and the interface check).  A PROPFAIL is reported as KNOWN only for
-         `seq-wrap`      every failure lies in a direction whose sequence numbers cross 2^32 and whose data segments do
-                         not arrive exactly once and in order (gopacket's Sequence.Difference is off by one across
-                         the wrap); for such a direction the interface check on the recorded calls is skipped too.
+         `seq-wrap`      every failure lies in a direction whose sequence numbers cross 2^32 (`wraps`) and that has
+                         (`wrapDupOv`) two captured data segments sharing a byte of which one touches 2^32 — the class of
+                         `Props.C19.gopacket_seq_wrap_witness` — or (`wrapEdge`) a data/FIN segment starting at sequence
+                         number 2^32-1 (gopacket's Sequence.Difference takes 2^32-1 and 0 for equal: one-byte hole glued
+                         over, FIN overtaking the byte at 2^32-1); for such a direction the `exhausts`/`flushes` checks on
+                         the recorded calls are skipped too.  A loss at the wrap WITHOUT these (pure reordering: harness
+                         family wrap-reorder) is a PROPFAIL.  Only the reference's COUNT of skipped bytes and the byte
+                         positions after a skip are still not compared for any disorder across the wrap.
+    5a. `Accept`: `acceptReplay` runs `acceptSegment` per connection over the recorded packets; a recorded answer that
+       differs is DIVERGE `accept answer differs`; a rejected segment with payload that no accepted segment of the
+       direction covers (wrap-aware) is PROPFAIL `Accept rejected needed data`, never excused.
        A T packet may carry a 7th field `x<k>` / `xL`: the record was cut by the snap length (k bytes of the IP packet
        captured / cut inside the link header); both worlds see of it what `visiblePayload` says.
        Fixed in /repo and no longer excused: defrag-length (8dc84a5a), fsm-reorder (1ef5f83b), pcapng-shb-section and
@@ -384,6 +392,10 @@ structure DirRef where
   missing : Nat           -- uncovered byte positions between the first missing byte and the last captured one
   wraps : Bool            -- the sequence numbers in play cross 2^32
   clean : Bool            -- the data segments arrive exactly once and in order, after the SYN and before the FIN
+  wrapDupOv : Bool        -- class of `gopacket_seq_wrap_witness`: two captured data segments share a byte (a duplicate
+                          -- is a full overlap) and one of them touches the wrap (starts below 2^32, ends at or above it)
+  wrapEdge : Bool         -- the other half of the finding (2^32-1 and 0 compare equal): a captured segment of the
+                          -- direction (data, or a payload-free FIN) STARTS at sequence number 2^32-1 or the stream itself does
 
 def dirRef (k : Case) (evs : Array Ev) (c d : Nat) : DirRef :=
   let mine := evs.toList.filter fun e => e.c == c && e.d == d
@@ -405,9 +417,16 @@ def dirRef (k : Case) (evs : Array Ev) (c d : Nat) : DirRef :=
       let hasData := !e.data.isEmpty
       (acc.1 && !(hasData && acc.2.1) && !(e.syn && acc.2.2), acc.2.1 || e.fin, acc.2.2 || hasData)) (true, false, false)).1
   let clean := dataInOrder && flagsInOrder
+  -- absolute (not reduced) sequence ranges of the captured data segments, in arrival order
+  let absr : List (Nat × Nat) := dataEvs.map fun e => (isn + e.so, isn + e.so + e.data.length)
+  let touchers := (absr.zipIdx).filter fun (r, _) => r.1 < 4294967296 && r.2 ≥ 4294967296
+  let wrapDupOv := touchers.any fun (t, ti) =>
+    (absr.zipIdx).any fun (r, ri) => ri != ti && r.1 < t.2 && t.1 < r.2
+  let wrapEdge := isn + 1 == 4294967295 ||
+    mine.any fun e => (!e.data.isEmpty || e.fin) && (isn + e.so == 4294967295 || (e.fin && isn + e.so + e.data.length == 4294967295))
   { present := !mine.isEmpty, hasSyn, hasFin, base, stop, stream := r.1, beyondHole := r.2,
     missing := uncoveredCount segs stop (maxStop segs - stop),
-    wraps := lo < 4294967296 && hi ≥ 4294967296, clean }
+    wraps := lo < 4294967296 && hi ≥ 4294967296, clean, wrapDupOv, wrapEdge }
 
 /-! ### fq's observation -/
 
@@ -436,6 +455,7 @@ structure Inp where
   syn : Bool
   fin : Bool
   rst : Bool
+  ack : Bool
   seq : Nat
   nextSeq : Int
   accepted : Bool
@@ -532,7 +552,7 @@ def parseInp (k : Case) (w : String) : Option Inp :=
       | _ => none
     let data ← parseTraceData k data
     if seq ≥ 4294967296 then none
-    some ⟨c, s2c, fl.contains 'S', fl.contains 'F', fl.contains 'R', seq, ns, acc, st, data⟩
+    some ⟨c, s2c, fl.contains 'S', fl.contains 'F', fl.contains 'R', fl.contains 'A', seq, ns, acc, st, data⟩
   | _ => none
 
 partial def parseObsBody (k : Case) (ws : List String) (o : Obs) : Option Obs :=
@@ -690,6 +710,40 @@ def gopacketReplay (evs : Array TEv) : Option String := Id.run do
     if g.c2s.fault || g.s2c.fault then return some s!"gopacket-model: connection {ci}: slice index out of range in the model"
   return none
 
+/-! ### fq's `Accept` itself: the recorded answers against `Reasm.acceptSegment`
+
+  Per connection the state machine of the model runs over the recorded packets in order (flags and direction as
+  gopacket handed them to `Accept`); every recorded answer must be the model's.  Independently of the model: a
+  REJECTED segment with payload of which some byte is carried by no accepted segment of the same direction was
+  needed (`Props.C19.accept_never_rejects_needed_data`) — distances wrap-aware, measured from the rejected segment's
+  own sequence number minus 2^31. -/
+instance : Inhabited Fsm := ⟨{}⟩
+
+def acceptReplay (evs : Array TEv) : List String × List String := Id.run do
+  let mut states : Array Fsm := #[]
+  let mut dv : List String := []
+  let mut pf : List String := []
+  let inps : List Inp := evs.toList.filterMap fun e => match e with | .inp i => some i | _ => none
+  let mut npk := 0
+  for i in inps do
+    npk := npk + 1
+    if i.conn > states.size then
+      dv := dv ++ [s!"accept: packet {npk}: connection {i.conn} out of order"]
+      break
+    if i.conn == states.size then states := states.push {}
+    let r := acceptSegment states[i.conn]! i.syn i.ack i.fin i.rst i.s2c (!i.data.isEmpty)
+    states := states.set! i.conn r.1
+    if r.2 != i.accepted then
+      dv := dv ++ [s!"accept answer differs: packet {npk} (seq {i.seq}, {i.data.length} bytes, nextSeq {i.nextSeq}) model={r.2} fq={i.accepted}"]
+    if !i.accepted && !i.data.isEmpty then
+      let org := (i.seq + 2147483648) % 4294967296     -- i.seq - 2^31
+      let rel := fun (q : Nat) => (q + 4294967296 - org) % 4294967296
+      let others : List (Seg UInt8) := (inps.zipIdx.filter fun (j, jn) =>
+          jn + 1 != npk && j.conn == i.conn && j.s2c == i.s2c && j.accepted && !j.data.isEmpty).map fun (j, _) => Seg.mk' (rel j.seq) j.data
+      if (List.range' (rel i.seq) i.data.length).any (fun b => !covered others b) then
+        pf := pf ++ [s!"Accept rejected needed data: connection {i.conn} {if i.s2c then "s2c" else "c2s"} seq {i.seq} {i.data.length} bytes (nextSeq {i.nextSeq}) carried by no accepted segment"]
+  return (dv, pf)
+
 /-! ### verdict -/
 
 structure Findings where
@@ -728,7 +782,11 @@ def predicate (k : Case) (o : ObsSec) (evs : Array Ev) (dones : List Done) (orde
       for (od, d) in [(oc, clientIs), (os, 1 - clientIs)] do
         let r := dirRef k evs ci d
         let sent := sel cc.data d
-        let w := r.wraps && !r.clean
+        -- `w`: the excuse for a PROPFAIL (known finding seq-wrap), exactly the class of the witnesses
+        -- `Props.C19.gopacket_seq_wrap_witness` / `seq_wrap_witness`; `wl`: the wider class in which only the reference's
+        -- COUNT of skipped bytes is not compared (every distance across the wrap is one short)
+        let w := r.wraps && (r.wrapDupOv || r.wrapEdge)
+        let wl := r.wraps && !r.clean
         let expect := (sent.drop r.base).take (r.stop - r.base)
         if od.stream != blob expect then
           f := f.fail s!"connection {ci} {if d == 0 then "A" else "B"}: stream is not sent[{r.base},{r.stop}) got {(od.stream.take 32).toString}" w
@@ -739,7 +797,7 @@ def predicate (k : Case) (o : ObsSec) (evs : Array Ev) (dones : List Done) (orde
         if od.start && !r.hasSyn then f := f.fail s!"connection {ci}: has_start without a SYN" false
         if od.stop && !r.hasFin then f := f.fail s!"connection {ci}: has_end without a FIN" false
         -- the exact count is a prediction of the reference model, not part of the property statement
-        if od.skipped != r.missing && !w then
+        if od.skipped != r.missing && !wl then
           f := f.div s!"connection {ci} {if d == 0 then "A" else "B"}: skipped_bytes {od.skipped} reference counts {r.missing} missing bytes"
   -- ipv4_reassembled
   let expectR := dones.map fun d => blob (datagram d.src d.dst d.id d.proto d.payload)
@@ -754,6 +812,7 @@ structure SecResult where
   dropped : Nat
   fsmRejected : Nat
   misdecoded : Nat
+  acceptFail : List String := []
 
 /-- one flows section: fq's report `o` for it and the calls recorded for it against the section's packets -/
 def stepSection (k : Case) (pkts : List FPkt) (o : ObsSec) (calls : Array Call) (tevs : Array TEv) : SecResult := Id.run do
@@ -784,9 +843,13 @@ def stepSection (k : Case) (pkts : List FPkt) (o : ObsSec) (calls : Array Call) 
         let d := if s2c then 1 - first else first
         let rf := dirRef k evsFq ci d
         let chunks := calls.toList.filter fun c => c.conn == i && c.s2c == s2c
+        -- skipped for the class of the known finding; the byte COUNTS of skips (`interfaceOK`) also for every
+        -- other disorder across the wrap (gopacket's distances across 2^32 are one short)
+        let wx := rf.wraps && (rf.wrapDupOv || rf.wrapEdge)
         if !(rf.wraps && !rf.clean) then
           if !interfaceOK (sel k.conns[ci]!.data d) rf.base chunks then
             dv := dv ++ [s!"interface-assumption (Delivers/FlushOnlyAtEnd) violated by the recorded calls of connection {i} {if s2c then "s2c" else "c2s"}"]
+        if !wx then
           -- `exhausts` / `flushes` of Props.C19.GopacketInterface
           let pre := chunks.filter fun c => c.skip == 0 || c.skip == -1
           let post := chunks.filter fun c => c.skip > 0
@@ -795,6 +858,9 @@ def stepSection (k : Case) (pkts : List FPkt) (o : ObsSec) (calls : Array Call) 
             dv := dv ++ [s!"interface-assumption (exhausts) connection {i} {if s2c then "s2c" else "c2s"}: {delivered} bytes delivered before the first skip, reference [{rf.base},{rf.stop})"]
           if !post.isEmpty != rf.beyondHole then
             dv := dv ++ [s!"interface-assumption (flushes) connection {i} {if s2c then "s2c" else "c2s"}"]
+  -- fq's Accept on the recorded packets
+  let (adv, apf) := acceptReplay tevs
+  dv := dv ++ adv
   -- the transliterated assembler on the recorded packets
   match gopacketReplay tevs with
   | some w => dv := dv ++ [w]
@@ -805,7 +871,7 @@ def stepSection (k : Case) (pkts : List FPkt) (o : ObsSec) (calls : Array Call) 
     dv := dv ++ [s!"gopacket-model: {npk} packets reached the assembler, the fq model hands on {r.evsFq.size}"]
   let modelR := (r.done.toList.filter (·.accepted)).map fun d => blob (datagram d.src d.dst d.id d.proto d.payload)
   if modelR != o.reasm.toList then dv := dv ++ [s!"ipv4_reassembled model has {modelR.length}"]
-  return ⟨refF, fqF, dv, dropped, fsmRejected, r.misdecoded⟩
+  return ⟨refF, fqF, dv, dropped, fsmRejected, r.misdecoded, apf⟩
 
 def Findings.merge (a b : Findings) : Findings :=
   ⟨a.propfail ++ b.propfail, a.wrapOnly && b.wrapOnly, a.diverge ++ b.diverge⟩
@@ -824,12 +890,14 @@ def stepCap (k : Case) (o : Obs) : String := Id.run do
     if o.secs.size == 1 && o.traceSecs.size == 1 then
       let r := stepSection k secs.flatten o.secs[0]! o.traceSecs[0]! (o.traceEvs.getD 0 #[])
       refF := refF.merge r.refF
+      for w in r.acceptFail do refF := refF.fail w false
       fqF := fqF.merge r.fqF
   else
     for i in [0:secs.length] do
       let r := stepSection k secs[i]! o.secs[i]! o.traceSecs[i]! (o.traceEvs.getD i #[])
       let tag := fun (l : List String) => if secs.length == 1 then l else l.map fun w => s!"section {i}: {w}"
       refF := refF.merge { r.refF with propfail := tag r.refF.propfail }
+      for w in tag r.acceptFail do refF := refF.fail w false
       fqF := fqF.merge { r.fqF with propfail := tag r.fqF.propfail }
       dv := dv ++ tag r.dv
   let suffix := match dv with
